@@ -44,6 +44,7 @@ class Ctx:
             raise Inconclusive("TLC reports an error in specification %s (not a verdict about the code):\n%s" % (name, res["out"][-3000:]))
         self.cov["states"] += res.get("distinct", 0)
         self.cov["transitions"] += res.get("generated", 0)
+        self.cov["model_states"] = self.cov.get("model_states", 0) + res.get("distinct", 0)
         self.cov["tlc_models"].append({"spec": name, "distinct": res.get("distinct"), "generated": res.get("generated"), "depth": res.get("depth"), "wall_s": round(res["wall"], 1)})
 
     def sample(self, s):
@@ -68,6 +69,8 @@ class Ctx:
         wall = time.time() - self.t0
         self.cov["known_findings_hit"] = self.known
         self.cov["spec_drift"] = self.drift
+        self.cov["states_note"] = ("states/transitions = distinct/generated states TLC explored in this run: exhaustive and simulated models (see tlc_models) "
+                                   "plus the trace-validation searches over recorded real-code runs (trace_validation_states)")
         for d in self.drift:
             print("SPEC-DRIFT property=%s %s" % (self.pid, d))
         lib.write_evidence(self.pid, self.tier, self.level, self.cov, wall, len(self.violations), self.assumptions)
@@ -112,6 +115,9 @@ def run_seq(ctx, programs, spec, prop, label):
     rejected, st = lib.validate_runs(spec, runs, env={"PROP": prop}, timeout=3600)
     ctx.cov["traces_validated_against_impl"] += len(runs)
     ctx.cov["events_validated"] += st["events"]
+    ctx.cov["states"] += st["distinct"]
+    ctx.cov["transitions"] += st["generated"]
+    ctx.cov["trace_validation_states"] = ctx.cov.get("trace_validation_states", 0) + st["distinct"]
     ctx.cov.setdefault("trace_validation", []).append({"label": label, "spec": spec, "runs": len(runs), "events": st["events"], "tlc_runs": st["tlc_runs"], "wall_s": round(st["wall"], 1)})
     if runs:
         ctx.sample({"label": label, "first_events": [json.loads(x) for x in runs[0][1:4]]})
@@ -514,7 +520,9 @@ def run_conc(ctx, scenarios, spec, prop, label, c13=False):
     rejected, st = lib.validate_runs(spec, runs, env={"PROP": prop}, timeout=3600)
     ctx.cov["traces_validated_against_impl"] += len(runs)
     ctx.cov["events_validated"] += st["events"]
+    ctx.cov["states"] += st["distinct"]
     ctx.cov["transitions"] += st["generated"]
+    ctx.cov["trace_validation_states"] = ctx.cov.get("trace_validation_states", 0) + st["distinct"]
     ctx.cov.setdefault("trace_validation", []).append({"label": label, "spec": spec, "schedules": total_runs, "histories": len(runs), "events": st["events"], "lin_search_states": st["distinct"], "wall_s": round(st["wall"], 1)})
     if runs:
         ctx.sample({"label": label, "history": [slim(json.loads(x)) for x in runs[len(runs) // 2][:14]]})
@@ -701,6 +709,7 @@ def check_c10(ctx):
 
 
 def check_c12(ctx):
+    exhaustive_cache_model(ctx)
     # caches: every sequential program on Cache and CacheOf[string,any] must give identical observations
     n, length = (60, 120) if not ctx.thorough else (1200, 300)
     base = cache_programs(ctx, n, length, units=(1, 1, 1_000_000_000))
@@ -900,7 +909,13 @@ def check_c14(ctx):
             ctx.drift.append("access mode of %s is %s in the working tree, %s in the table the CLHT specification assumes (specs/access_modes.json)" % (k, table.get(k), exp.get(k)))
     else:
         json.dump(table, open(exp_path, "w"), indent=1, sort_keys=True)
-    ctx.cov["states"] = max(ctx.cov["states"], 1)
+    ctx.level = "exploration"
+    ctx.cov["evaluations"] = tot["programs"] + ctx.cov["traces_validated_against_impl"]
+    ctx.cov["distinct_nontrivial"] = tot["programs"] + ctx.cov["traces_validated_against_impl"]
+    ctx.cov["rule"] = ("evaluations = natively parallel -race stress programs (each a seeded mix of all API calls by 2..64 goroutines on the four containers, "
+                       "janitor on, settings swapped concurrently; %d operations in total) + distinct natively parallel stamped histories of small programs, each validated by TLC "
+                       "against MapLin/CacheLin; every stress program differs by seed/goroutine count/key space, histories are de-duplicated, so every counted case is distinct and "
+                       "non-trivial (>= 2 goroutines touching shared keys)" % tot["ops"])
     ctx.assumptions += ["the Go race detector is the observer of the compiled, uninstrumented code (this is the one property TLC cannot decide about a binary); it only reports races on executions that happen",
                         "payload integrity: values are pointers to freshly initialised structs whose checksum is verified on every read",
                         "a report whose frames are all outside repository code is INCONCLUSIVE (harness), never a violation"]
